@@ -377,6 +377,8 @@ def background(eng):
     for f in streams.path_axioms():
         bg.append((("resolve_path",), f))
     from . import tables
+    for f in tables.nz_axioms():
+        bg.append((("nzlead",), f))
     for f in tables.axioms(LM.rsum):
         bg.append((("tcount", "tsize", "lcnt", "undo_cells", "undo_hand"), f))
     _BG = bg
